@@ -1,5 +1,9 @@
 """C15 - the scheduler loop sends each due schedule once per occurrence, minute after minute."""
+import datetime as dt
+import importlib.util
 import json
+import os
+import zoneinfo
 
 import common as C
 
@@ -19,8 +23,9 @@ META = dict(
                "Coq (vm_compute), (a) the code-shaped iteration body is evaluated on every observed poll (spawned set, delays, "
                "get_task_delay answers, sleep length) and (b) the system model predicts the whole run from the scenario alone (poll "
                "instants, listings, sends, attempt numbers, kick instants and outcomes).",
-    level_note="cron_due is a Section variable (C13 / Cron.v); its values are supplied per (expression, minute) by an independent "
-               "matcher for the simple expressions generated here. One-shot exactly-once is claimed for removing sources only "
+    level_note="cron_due is a Section variable (C13 / Cron.v); its values are supplied per (expression, cron_offset, minute) by an "
+               "independent matcher for the simple expressions generated here, read on the wall clock of the schedule's "
+               "cron_offset (UTC / UTC + timedelta / the named zone, by CPython datetime + zoneinfo over pytz's bundled files). One-shot exactly-once is claimed for removing sources only "
                "(label source, scripted source deleting on post_send): a source that keeps listing a past one-shot has it "
                "re-sent every minute - that is the source's contract, not the loop's. Known finding D7: a one-shot still in flight "
                "(spawned, post_send not yet run) when a later poll lists it is sent again. Listing latencies are assumed below "
@@ -28,11 +33,14 @@ META = dict(
                "asyncio.sleep never waking early w.r.t. the wall clock is assumed (one shared virtual clock).",
     rule="case = loop run (start instant, 1-3 sources static/removing/label, cron + one-shot + unparsable schedules with presence "
          "windows, listing latencies, kick latencies, failing listings / kicks; 4 % of the runs are long: 2-5 h or ~26 h with crons "
-         "that recur on the same minute-of-hour / hour-of-day); non-trivial iff it crosses >= 3 minute boundaries "
+         "that recur on the same minute-of-hour / hour-of-day; 11 % carry groups of cron schedules that share one expression string and "
+         "differ in cron_offset - none / zone names / timedeltas - aimed so that the answers differ inside a group in one poll); non-trivial iff it crosses >= 3 minute boundaries "
          "with a cron both due and not due, >= 1 one-shot, >= 1 injected failure; distinct by canonical JSON",
     trusted_base=["model: coq/theories/SchedLoop.v (hand-written transcription of taskiq/cli/scheduler/run.py loop + system model)",
                   "exact virtual-time loop and datetime shim in harness/drivers/sched_driver.py (one clock for wall and monotonic time)",
-                  "independent cron matcher in harness/props/C15.py for `*`, `*/n`, `a`, `a,b` minute/hour fields",
+                  "independent cron matcher in harness/props/C15.py for `*`, `*/n`, `a`, `a,b` minute/hour fields and `*`, `a`, `a,b` day / "
+                  "month / weekday fields, on the wall clock of the schedule's cron_offset (CPython datetime; zones by stdlib zoneinfo "
+                  "reading pytz's own bundled TZif files)",
                   "SchedDelay.delay (C14) for one-shot due-ness"],
     assumptions=["asyncio.sleep does not wake early w.r.t. the wall clock", "sources of one scheduler are distinct objects",
                  "schedule ids are unique within a source", "no two relevant timers tie (listing snapshots at even, removals and "
@@ -41,10 +49,45 @@ META = dict(
 
 CRONS = ["* * * * *", "*/2 * * * *", "*/3 * * * *", "*/5 * * * *"]
 BAD = ["* * * *", "bad cron", "* * * * * *"]
+NZONES = (48, 1000), (4, 60)             # runs with same-expression / different-offset groups: (short, 2-5 h) x (quick, thorough)
 NLONG_Q, NLONG_T = (13, 3), (300, 40)      # long runs per check: (2-5 h runs, ~26 h runs) quick / thorough
 
 
-# ------------------------------------------------------------------ independent cron matcher (simple forms, UTC)
+# ------------------------------------------------------------------ independent cron matcher (simple forms)
+EP = dt.datetime(1970, 1, 1, tzinfo=dt.timezone.utc)
+_ZI = {}
+
+
+def zi(zone):
+    """stdlib TZif reader applied to pytz's OWN bundled data (the system tzdata differs for future dates); no pytz code runs"""
+    z = _ZI.get(zone)
+    if z is None:
+        d = os.path.join(importlib.util.find_spec("pytz").submodule_search_locations[0], "zoneinfo")
+        with open(os.path.join(d, zone), "rb") as f:
+            z = _ZI[zone] = zoneinfo.ZoneInfo.from_file(f, key=zone)
+    return z
+
+
+def wall(t_us, off):
+    """the wall clock the expression of a schedule with cron_offset `off` is read on at the UTC instant t_us: UTC when there is
+    no offset, UTC + the timedelta, local time of the named zone (CPython datetime / zoneinfo arithmetic)"""
+    t = EP + dt.timedelta(microseconds=t_us)
+    if not off:
+        return t
+    if off["kind"] == "td":
+        return t + dt.timedelta(microseconds=off["us"])
+    return t.astimezone(zi(off["zone"]))
+
+
+def shift_us(t_us, off):
+    if not off:
+        return 0
+    if off["kind"] == "td":
+        return off["us"]
+    d = wall(t_us, off).utcoffset()
+    return (d.days * 86400 + d.seconds) * US + d.microseconds
+
+
 def field_match(f, v):
     if f == "*":
         return True
@@ -53,12 +96,36 @@ def field_match(f, v):
     return v in [int(x) for x in f.split(",")]
 
 
-def cron_matches(expr, minute_index):
+def fields_match(expr, w):
+    """does the expression match the minute shown by the wall clock w (minute hour day-of-month month day-of-week, 0 = Sunday;
+    when both day fields are restricted either may match)"""
     mi, ho, dom, mon, dow = expr.split(" ")
-    assert (dom, mon, dow) == ("*", "*", "*")
-    m = minute_index % 60
-    h = (minute_index // 60) % 24
-    return field_match(mi, m) and field_match(ho, h)
+    assert not any(x.startswith("*/") for x in (dom, mon, dow))    # `*/n` counts from the field's minimum there: not generated
+    d1, d2 = field_match(dom, w.day), field_match(dow, w.isoweekday() % 7)
+    day = (d1 or d2) if dom != "*" and dow != "*" else (d1 and d2)
+    return field_match(mi, w.minute) and field_match(ho, w.hour) and field_match(mon, w.month) and day
+
+
+def cron_due(e, t_us):
+    """the statement's 'its expression matches that minute' for cron entry e at the instant t_us"""
+    return fields_match(e["cron"], wall(t_us, e.get("off")))
+
+
+def cron_matches(expr, minute_index, off=None):
+    return fields_match(expr, wall(minute_index * MIN, off))
+
+
+def off_key(off):
+    return json.dumps(off or None, sort_keys=True)
+
+
+def off_kind(off):
+    if not off:
+        return "none"
+    if off["kind"] == "zone":
+        return "zone"
+    return "timedelta" + (":sub-minute" if off["us"] % MIN else "") + (":negative" if off["us"] < 0 else "") + \
+        (":zero" if off["us"] == 0 else "")
 
 
 # ------------------------------------------------------------------ generator
@@ -70,9 +137,11 @@ def even(x):
     return x & ~1
 
 
-def gen_case(r, long=False):
+def gen_case(r, long=False, base_at=None):
     base = r.choice([1_900_000_020, 1_700_000_040, 1_800_003_600, 2_000_000_040 + 86400 - 600]) * US
     base += r.randrange(0, 3000) * MIN
+    if base_at is not None:
+        base = base_at
     assert base % MIN == 0
     start = base + even(r.choice([0, 0, 2, 500_000, 999_998, 59_000_000, 59_999_998, r.randrange(MIN), r.randrange(MIN)]))
     H = r.randint(30, 60) if long else r.randint(4, 10)
@@ -167,7 +236,7 @@ def gen_case(r, long=False):
 DAY = 1440
 
 
-def gen_long(r, day=False):
+def gen_long(r, day=False, base_at=None):
     """LONG runs: 2-5 virtual hours (a third of them placed across midnight UTC), or - day=True - about 26 hours, with few
     schedules whose consecutive occurrences are an hour / some hours / a day apart (`M * * * *`, `M */2 * * *`, `M H * * *`,
     `M H,H' * * *`, ...) next to a few that recur within the hour.  What the loop (or a source) remembers from one
@@ -178,6 +247,8 @@ def gen_long(r, day=False):
     base += r.randrange(0, 3000) * MIN
     if not day and r.random() < .34:       # midnight UTC inside the run
         base = (base // (DAY * MIN) + 1) * DAY * MIN - r.randrange(20, H - 20) * MIN
+    if base_at is not None:
+        base = base_at
     assert base % MIN == 0
     start = base + even(r.choice([0, 0, 2, 500_000, 59_999_998, r.randrange(MIN), r.randrange(MIN)]))
     end = odd(base + H * MIN + r.randrange(MIN))
@@ -291,6 +362,157 @@ def gen_long(r, day=False):
                 family="long-day" if day else "long-hours")
 
 
+# ------------------------------------------------------------------ several schedules, ONE expression, different cron_offset
+TZ_ZONES = ["Europe/Berlin", "America/New_York", "Asia/Kolkata", "Asia/Kathmandu", "Australia/Lord_Howe", "America/St_Johns",
+            "Pacific/Chatham", "Pacific/Kiritimati", "Etc/GMT+12", "Africa/Casablanca", "Asia/Tokyo", "Europe/London", "UTC",
+            "America/Sao_Paulo", "Asia/Tehran"]
+TZ_DST = ["Europe/Berlin", "America/New_York", "Australia/Lord_Howe", "Pacific/Chatham", "Europe/London", "America/St_Johns"]
+_TR = {}
+
+
+def transitions(zone, year):
+    """UTC instants (us, whole minutes) in `year` at which the zone's offset changes, by scanning the oracle's reader"""
+    if (zone, year) not in _TR:
+        t, end = dt.datetime(year, 1, 1, tzinfo=dt.timezone.utc), dt.datetime(year + 1, 1, 1, tzinfo=dt.timezone.utc)
+        us = lambda x: round((x - EP).total_seconds()) * US
+        out, prev = [], shift_us(us(t), {"kind": "zone", "zone": zone})
+        while t < end:
+            n = t + dt.timedelta(hours=6)
+            if shift_us(us(n), {"kind": "zone", "zone": zone}) != prev:
+                lo, hi = us(t) // MIN, us(n) // MIN
+                while hi - lo > 1:
+                    mid = (lo + hi) // 2
+                    if shift_us(mid * MIN, {"kind": "zone", "zone": zone}) == prev:
+                        lo = mid
+                    else:
+                        hi = mid
+                out.append(hi * MIN)
+                prev = shift_us(us(n), {"kind": "zone", "zone": zone})
+            t = n
+        _TR[zone, year] = out
+    return _TR[zone, year]
+
+
+def zonify(r, c, zfirst=()):
+    """What ONE scheduler process sees when schedules differ only in cron_offset: groups of 2-4 cron schedules that share one
+    expression STRING and are read on different wall clocks - no offset (UTC), IANA zone names, timedeltas (whole hours, odd
+    minutes, below a minute, negative, zero, and the timedelta equal to a zone's current shift = the same wall clock by the
+    other route) - inside one source or spread over the sources, in any listing order.  The expression is aimed at the
+    hour / weekday / day that ONE member's wall clock shows in some minute of the run, so in that poll the correct answers
+    differ inside the group.  Whatever the loop keeps per expression, per instant or per poll (a memoised verdict, a reused
+    `now`) shows as a schedule sent in a minute it does not match or not sent in one it matches.  Existing crons of the run
+    get an offset now and then as well.  Applied to a run produced by gen_case / gen_long (everything else stays as it was)."""
+    start, end = c["start"], c["end"]
+    m0, m1 = start // MIN, end // MIN
+    zs = list(zfirst) + r.sample([z for z in TZ_ZONES if z not in zfirst], max(1, r.choice([1, 2, 2, 3]) - len(zfirst)))
+    zoffs = [{"kind": "zone", "zone": z} for z in zs]
+    offs = list(zoffs)
+    if r.random() < .75:
+        offs.append(None)
+    for _ in range(r.choice([0, 1, 1, 2])):
+        k = r.random()
+        if k < .4:       # a zone's shift at some instant of the run, as a timedelta
+            us = shift_us(r.randrange(start, end), r.choice(zoffs))
+        elif k < .48:
+            us = 0
+        elif k < .7:
+            us = r.randrange(-26 * 60, 26 * 60 + 1) * MIN
+        elif k < .9:
+            us = r.choice([-1, 1]) * r.choice([1, 1, 2, 3, 5, 12, 24]) * 60 * MIN
+        else:
+            us = r.randrange(-26 * 3600, 26 * 3600 + 1) * US + r.choice([0, 500_000, r.randrange(US)])
+        offs.append({"kind": "td", "us": us})
+    offs = [o for i, o in enumerate(offs) if o not in offs[:i]]
+    if len(offs) < 2:
+        offs.append(None if None not in offs else {"kind": "td", "us": r.choice([-1, 1]) * r.randint(1, 12) * 60 * MIN})
+    for s in c["sources"]:
+        for e in s["entries"]:
+            if e["kind"] == "cron" and r.random() < .3:
+                e["off"] = r.choice(offs)
+    sid = max(e["sid"] for s in c["sources"] for e in s["entries"])
+    nsrc = len(c["sources"])
+    hours = (end - start) // (60 * MIN) >= 2
+    for _ in range(r.choice([1, 1, 2])):
+        m = r.randrange(min(m0 + 1, m1), m1 + 1)
+        aim = r.choice(offs)
+        w = wall(m * MIN, aim)
+        mi, ho, dom, mon, dow = w.minute, w.hour, w.day, w.month, w.isoweekday() % 7
+        q = r.random()
+        if q < .3:
+            expr = "%d %d * * *" % (mi, ho)
+        elif q < .5:
+            expr = ("* %d * * *" if not hours else "*/10 %d * * *") % ho
+        elif q < .6:
+            expr = "*/2 %d * * *" % ho if not hours else "%d,%d %d * * *" % (mi, (mi + 30) % 60, ho)
+        elif q < .7:
+            expr = "%d %d,%d * * *" % (mi, ho, (ho + r.choice([1, 2, 5, 12])) % 24)
+        elif q < .8:
+            expr = "%d %d * * %d" % (mi, ho, dow)
+        elif q < .85:
+            expr = ("* %d * * %d" if not hours else "*/15 %d * * %d") % (ho, dow)
+        elif q < .9:
+            expr = "* * * * %d" % dow if not hours else "%d * * * %d" % (mi, dow)
+        elif q < .95:
+            expr = "%d %d %d * *" % (mi, ho, dom)
+        else:
+            expr = "%d %d %d %d %d" % (mi, ho, dom, mon, (dow + r.choice([0, 3])) % 7)
+        others = [o for o in offs if o != aim]
+        r.shuffle(others)
+        members = [aim] + others[:r.choice([1, 1, 2, 3])]
+        if r.random() < .15:
+            members.append(r.choice(members))       # two schedules with the same expression AND the same offset
+        r.shuffle(members)
+        one_source = r.randrange(nsrc) if r.random() < .5 else None
+        for o in members:
+            i = one_source if one_source is not None else r.randrange(nsrc)
+            s = c["sources"][i]
+            sid += 1
+            add = dele = None
+            if r.random() < .1:
+                add = odd(r.randrange(start, end))
+            if r.random() < .07:
+                dele = odd(r.randrange(add or start, end))
+                if add is not None and dele <= add:
+                    dele = add + 2
+            e = dict(sid=sid, add=add, **{"del": dele}, kind="cron", cron=expr, off=o)
+            if s["kind"] == "label":
+                e["task"] = r.choice(["t0", "t1"])
+            s["entries"].insert(r.randrange(len(s["entries"]) + 1), e)
+            for n in range(4):
+                k = r.random()
+                if k < .2:
+                    c["klat"]["%d:%d:%d" % (i, sid, n)] = odd(r.randrange(0, 2 * US) if k < .18 else r.randrange(0, 70 * US))
+                if r.random() < .04:
+                    c["kfail"].append([i, sid, n])
+    for s in c["sources"]:       # the order in which the real sources list (see gen_case); the sort is stable
+        if s["kind"] == "label":
+            s["entries"].sort(key=lambda e: (e["task"], e["add"] is not None, e["add"] or 0))
+        else:
+            s["entries"].sort(key=lambda e: (e["add"] is not None, e["add"] or 0))
+    c["family"] = "zones-hours" if hours else "zones"
+    return c
+
+
+def gen_zones(r, hours=False):
+    base_at, zfirst = None, ()
+    if r.random() < .3:      # a daylight-saving change of one of the zones inside the run
+        z = r.choice(TZ_DST)
+        T = r.choice(transitions(z, r.choice([2024, 2026, 2027, 2029, 2031])))
+        base_at, zfirst = T - (r.randrange(20, 110) if hours else r.randint(1, 4)) * MIN, (z,)
+    c = gen_long(r, base_at=base_at) if hours else gen_case(r, long=r.random() < .1, base_at=base_at)
+    return zonify(r, c, zfirst)
+
+
+def same_expr_groups(c):
+    """groups of cron entries that share the expression string but not the cron_offset: [(expr, [(source, entry), ...])]"""
+    by = {}
+    for i, s in enumerate(c["sources"]):
+        for e in s["entries"]:
+            if e["kind"] == "cron":
+                by.setdefault(e["cron"], []).append((i, e))
+    return [(x, l) for x, l in sorted(by.items()) if len({off_key(e.get("off")) for _, e in l}) >= 2]
+
+
 def recurrences(c):
     """per cron entry: (number of matching minutes in the run, does a later match fall on the minute-of-hour of the previous
     one, does one fall on the same hour-of-day and minute a day later) - for the evidence distribution only"""
@@ -300,7 +522,7 @@ def recurrences(c):
         for e in s["entries"]:
             if e["kind"] != "cron":
                 continue
-            ms = [m for m in mins if cron_matches(e["cron"], m)]
+            ms = [m for m in mins if cron_matches(e["cron"], m, e.get("off"))]
             same_min = any(b % 60 == a % 60 for a, b in zip(ms, ms[1:]))
             same_hm = any(b % DAY == a % DAY for a, b in zip(ms, ms[1:]))
             out.append((s["kind"], len(ms), same_min, same_hm))
@@ -316,7 +538,7 @@ def nontrivial(c):
         return False
     ents = [e for s in c["sources"] for e in s["entries"]]
     mins = range(c["start"] // MIN, c["end"] // MIN + 1)
-    both = any(e["kind"] == "cron" and len({cron_matches(e["cron"], m) for m in mins}) == 2 for e in ents)
+    both = any(e["kind"] == "cron" and len({cron_matches(e["cron"], m, e.get("off")) for m in mins}) == 2 for e in ents)
     return both and any(e["kind"] == "one" for e in ents) and bool(c["lfail"] or c["kfail"])
 
 
@@ -370,10 +592,11 @@ def oracle(c, o):
                 e = info[(i, sid)]
                 got = per.get((i, sid), [])
                 if e["kind"] == "cron":
-                    want = 1 if cron_matches(e["cron"], b // MIN) else 0
+                    want = 1 if cron_due(e, b) else 0
                     if len(got) != want or any(s[3] != 0 for s in got):
                         out.append(("cron schedule listed in a minute it %s sent %d times" % (
-                            "matches was" if want else "does not match was", len(got)), {"kind": "cron_count", "poll": k}))
+                            "matches was" if want else "does not match was", len(got)),
+                                    {"kind": "cron_count", "poll": k, "source": i, "sid": sid, "cron": e["cron"], "cron_offset": e.get("off")}))
                 elif e["kind"] == "bad" and got:
                     out.append(("unparsable cron was sent", {"kind": "bad_sent"}))
         for key in per:
@@ -463,7 +686,7 @@ def c_kind(e, cron_ids):
         return "(KOne %s)" % C.cz(e["T"])
     if e["kind"] == "bad":
         return "KBadCron"
-    return "(KCron %s)" % C.cn(cron_ids[e["cron"]])
+    return "(KCron %s)" % C.cn(cron_ids[(e["cron"], off_key(e.get("off")))])
 
 
 def c_dres(d):
@@ -479,13 +702,28 @@ def c_listing(l):
     return C.copt(None if l is None else C.clist(["(%s, %s)" % (C.cn(sid), c_dres(d)) for sid, d in l]))
 
 
+def cron_table(expr, off, m0, m1):
+    if off and off["kind"] == "td":
+        q, sub = divmod(off["us"], MIN)
+        hit = [n for n in range(m0, m1 + 1) if cron_matches(expr, n + q)]
+    else:
+        sub = 0
+        if off and any(shift_us(n * MIN, off) % MIN or shift_us(n * MIN + MIN - 1, off) != shift_us(n * MIN, off)
+                       for n in range(m0, m1 + 1)):
+            raise ValueError("zone offset not in whole minutes / changing inside a minute: %r" % off)
+        hit = [n for n in range(m0, m1 + 1) if cron_matches(expr, n, off)]
+    return "(%s, %s)" % (C.cz(sub), C.clist([C.cz(n - m0) for n in hit]))
+
+
 def literal(c, o):
-    crons = sorted({e["cron"] for s in c["sources"] for e in s["entries"] if e["kind"] == "cron"})
+    # the model's cron_due is indexed by "cron id": one id per distinct (expression, cron_offset) pair of the run
+    crons = sorted({(e["cron"], off_key(e.get("off"))) for s in c["sources"] for e in s["entries"] if e["kind"] == "cron"})
     cron_ids = {x: i for i, x in enumerate(crons)}
     m0 = c["start"] // MIN - 1
     m1 = c["end"] // MIN + 2
-    # per cron expression: the minutes m0 .. m1 (as offsets from m0) in which it matches, by the independent matcher
-    tabs = C.clist([C.clist([C.cz(m - m0) for m in range(m0, m1 + 1) if cron_matches(x, m)]) for x in crons])
+    # per cron id: (sub, the n - m0 for n in m0 .. m1 such that the schedule is due at the instants t with (t + sub) / MIN = n),
+    # by the independent matcher; sub = the part of a timedelta offset below a minute (0 otherwise)
+    tabs = C.clist([cron_table(x, json.loads(ok), m0, m1) for x, ok in crons])
     srcs = C.clist(["(mkSource %s %s)" % (C.cb(s["kind"] != "static"), C.clist(
         ["(mkEnt %s %s %s %s)" % (C.cn(e["sid"]), c_kind(e, cron_ids), C.cz(e["add"] if e["add"] is not None else c["start"] - 1),
                                   C.copt(e["del"], C.cz)) for e in s["entries"]])) for s in c["sources"]])
@@ -537,7 +775,7 @@ Definition send_t := (nat * nat * nat * Z * option (Z * option bool))%type.
 Definition listings_t := list (option (list (nat * dres))).
 Definition opoll_t := (Z * Z * nat * list send_t * Z)%type.    (* the listings of a poll: position in the case's table *)
 Definition case_t := (Z * list source * list (list (nat * Z)) * list (list nat) * list (nat * nat * nat * Z) *
-  list (nat * nat * nat) * Z * list (list Z) * Z * list (nat * nat * kind) * list listings_t * list opoll_t)%type.
+  list (nat * nat * nat) * Z * list (Z * list Z) * Z * list (nat * nat * kind) * list listings_t * list opoll_t)%type.
 Definition OP (a db : Z) (ls : nat) (sps : list send_t) (slp : Z) : opoll_t := (a, db, ls, sps, slp).
 (* a poll is written as (start of the poll - start of the run, body instant - start of the poll, ...) *)
 Definition obs1_of (start : Z) (lt : list listings_t) (p : opoll_t) :=
@@ -550,7 +788,7 @@ BODY = """Definition chk (c : case_t) : bool :=
   let '(start, srcs, lat, lfail, klat, kfail, E, tabs, m0, ktab, lstab, opolls) := c in
   let obs := map (obs1_of start lstab) opolls in
   let obs2 := map (obs2_of start lstab) opolls in
-  let cd := fun (c : nat) (t : Z) => existsb (Z.eqb (t / MIN - m0)) (nth c tabs []) in
+  let cd := fun (c : nat) (t : Z) => let '(sub, tab) := nth c tabs (0, []) in existsb (Z.eqb ((t + sub) / MIN - m0)) tab in
   let sc := mkScenario start srcs (lk2 lat) (lkb2 lfail) (lk3 klat) (lkb3 kfail) in
   run_check cd sc E obs && forallb (poll_check cd (lkk ktab)) obs2 && C15_check cd (lkk ktab) start obs2.
 Fixpoint bad (i : nat) (l : list case_t) : list nat :=
@@ -584,6 +822,33 @@ def explore(ctx, rep, cases, label, shard=25, chunk=None):
             rep.count("source:" + s["kind"])
             for e in s["entries"]:
                 rep.count("entry:" + e["kind"] + (":dynamic" if e["add"] is not None or e["del"] is not None else ""))
+                if e["kind"] == "cron":
+                    rep.count("cron-offset:" + off_kind(e.get("off")) + (":label-source" if s["kind"] == "label" and e.get("off") else ""))
+                    if e.get("off") and e["off"]["kind"] == "zone":
+                        rep.count("cron-offset:zone:" + e["off"]["zone"])
+                        if shift_us(c["start"], e["off"]) != shift_us(c["end"], e["off"]):
+                            rep.count("cron-offset:zone:daylight-saving-change-inside-the-run")
+        # schedules that share the expression string and differ in cron_offset (one process, one poll): how often do the
+        # correct answers differ inside such a group in a poll that lists two of them
+        groups = same_expr_groups(c)
+        differ = 0
+        for x, members in groups:
+            rep.count("same-expression-different-offsets:groups")
+            rep.count("same-expression-different-offsets:" + ("one-source" if len({i for i, _ in members}) == 1 else "across-sources"))
+            rep.count("same-expression-different-offsets:members", len(members))
+            if any(shift_us(c["start"], a.get("off")) == shift_us(c["start"], b.get("off")) and off_key(a.get("off")) != off_key(b.get("off"))
+                   for _, a in members for _, b in members):
+                rep.count("same-expression-different-offsets:two-routes-to-one-wall-clock")
+            for p in o["polls"]:
+                here = {cron_due(e, p["b"]) for i, e in members
+                        if i < len(p["listings"]) and p["listings"][i] is not None and e["sid"] in [u[0] for u in p["listings"][i]]}
+                if len(here) == 2:
+                    differ += 1
+        if groups:
+            rep.count("same-expression-different-offsets:runs")
+            rep.count("same-expression-different-offsets:polls-where-the-answers-differ-inside-a-group", differ)
+            if differ:
+                rep.count("same-expression-different-offsets:runs-with-such-a-poll")
         for p in o["polls"]:
             for l in p["listings"]:
                 if l is None:
@@ -629,6 +894,12 @@ def run(ctx):
     nh, nd = ctx.n(NLONG_Q[0], NLONG_T[0]), ctx.n(NLONG_Q[1], NLONG_T[1])
     longs = [gen_long(r3, day=(k % (nh // nd + 1) == nh // nd)) for k in range(nh + nd)]
     broken = explore(ctx, rep, longs, "long", shard=1 if ctx.quick else 4, chunk=1 if ctx.quick else None) or broken
+    # runs in which several cron schedules share one expression string and differ in cron_offset - see zonify
+    r4 = ctx.sub_rng("zones")
+    nz, nzh = ctx.n(*NZONES[0]), ctx.n(*NZONES[1])
+    broken = explore(ctx, rep, [gen_zones(r4) for _ in range(nz)], "zones") or broken
+    broken = explore(ctx, rep, [gen_zones(r4, hours=True) for _ in range(nzh)], "zones-hours", shard=1 if ctx.quick else 4,
+                     chunk=1 if ctx.quick else None) or broken
     unexplained = [f for f in rep.failures if not sig_d7(f)]
     if (broken or any(not o["ok"] for o in rep.obligations)) and not unexplained:
         r2 = ctx.sub_rng("search")
